@@ -38,6 +38,7 @@ type raceClient struct {
 	seed    int64
 	calls   int64
 	verdict string // which non-200 verdicts harvest requests may get
+	overlap bool   // connect attempts of one application overlap (no back-off between them)
 }
 
 func (c *raceClient) Execute(cmd *collector.RpmCmd, cs collector.RpmControls) collector.RPMResponse {
@@ -48,7 +49,10 @@ func (c *raceClient) Execute(cmd *collector.RpmCmd, cs collector.RpmControls) co
 	}
 	switch cmd.Name {
 	case collector.CommandPreconnect:
-		return collector.RPMResponse{StatusCode: 200, Body: []byte(`{"redirect_host":"collector-1.example"}`)}
+		if c.overlap {
+			time.Sleep(time.Duration(200+r.Intn(800)) * time.Microsecond) // attempts of one application are in flight together
+		}
+		return collector.RPMResponse{StatusCode: 200, Body: []byte(`{"redirect_host":"collector-1.example","security_policies":{"record_sql":{"enabled":true,"required":false},"custom_events":{"enabled":false,"required":false}}}`)}
 	case collector.CommandConnect:
 		period := []string{"60000", "5000", "1000"}[r.Intn(3)]
 		body := fmt.Sprintf(`{"agent_run_id":"run%d","event_harvest_config":{"report_period_ms":%s,"harvest_limits":{"analytic_event_data":%d,"custom_event_data":%d,"error_event_data":%d,"log_event_data":%d}},"span_event_harvest_config":{"report_period_ms":60000,"harvest_limit":%d}}`,
@@ -87,7 +91,17 @@ func raceMarshalAppInfo(info *newrelic.AppInfo, spanMax, logMax, customMax uint6
 	metadata := buf.CreateString("{}")
 	host := buf.CreateString(info.Hostname)
 	dockerID := buf.CreateString(info.DockerId)
+	var tok, pols flatbuffers.UOffsetT
+	if info.SecurityPolicyToken != "" {
+		tok = buf.CreateString(info.SecurityPolicyToken)
+		pj, _ := json.Marshal(info.SupportedSecurityPolicies.Policies)
+		pols = buf.CreateString(string(pj))
+	}
 	protocol.AppStart(buf)
+	if tok != 0 {
+		protocol.AppAddSecurityPolicyToken(buf, tok)
+		protocol.AppAddSupportedSecurityPolicies(buf, pols)
+	}
 	protocol.AppAddDockerId(buf, dockerID)
 	protocol.AppAddAgentLanguage(buf, lang)
 	protocol.AppAddAgentVersion(buf, version)
@@ -249,7 +263,7 @@ func raceOp(t []string) string {
 	raceReports() // forget reports of earlier ops
 
 	addr := fmt.Sprintf("@verif-race-%d-%d", os.Getpid(), raceCounter)
-	client := &raceClient{seed: seed, verdict: raceStr(t, "verdicts", "503,409,410")}
+	client := &raceClient{seed: seed, verdict: raceStr(t, "verdicts", "503,409,410"), overlap: raceKV(t, "overlap", 0) == 1}
 	limited := collector.NewLimitClient(client, 4, 50*time.Millisecond) // the real limiter in front of it, as in worker.go
 	newrelic.VerifTickersOn()
 	defer newrelic.VerifTickersOff()
@@ -257,6 +271,10 @@ func raceOp(t []string) string {
 	// vendors hash; the agents run in containers of their own and report their container ids
 	os.Setenv("KUBERNETES_SERVICE_HOST", "10.96.0.1")
 	p := newrelic.NewProcessor(newrelic.ProcessorConfig{Client: limited, UtilConfig: utilization.Config{DetectKubernetes: true}, AppTimeout: 10 * time.Minute})
+	if client.overlap {
+		// no back-off: every query that finds the application still unconnected launches another attempt next to the ones in flight
+		newrelic.VerifSetConnectBackoff(p, 0)
+	}
 	runDone := make(chan struct{})
 	go func() { p.Run(); close(runDone) }()
 
@@ -275,6 +293,12 @@ func raceOp(t []string) string {
 		info.License = collector.LicenseKey(fmt.Sprintf("%040d", i))
 		info.RedirectCollector = ""
 		info.DockerId = fmt.Sprintf("cid%d0a1b2c3d4e5f", i)
+		if i%2 == 0 {
+			// a security-policy token: the handshake verifies the policies and merges them into the connect payload
+			info.SecurityPolicyToken = "ffff-fbff-ffff-ffff"
+			info.SupportedSecurityPolicies = newrelic.AgentPolicies{Policies: map[string]newrelic.SecurityPolicyAgent{
+				"record_sql": {Enabled: true, Supported: true}, "custom_events": {Enabled: true, Supported: true}}}
+		}
 		qrys[i] = raceMarshalAppInfo(&info, 10000, 10000, 30000)
 	}
 
